@@ -191,6 +191,53 @@ pub mod vm {
         type IntoIter = std::vec::IntoIter<(K, V)>;
         fn into_iter(self) -> Self::IntoIter { self.0.into_iter() }
     }
+    /// Vec-backed reference set with the subset of the std HashSet API that blocker.rs / network_filter_list.rs use.
+    pub struct HashSet<K, S = std::hash::RandomState>(pub Vec<K>, PhantomData<S>);
+    impl<K, S> Default for HashSet<K, S> { fn default() -> Self { HashSet(Vec::new(), PhantomData) } }
+    impl<K: Clone, S> Clone for HashSet<K, S> { fn clone(&self) -> Self { HashSet(self.0.clone(), PhantomData) } }
+    impl<K: PartialEq, S> HashSet<K, S> {
+        pub fn new() -> Self { Self::default() }
+        pub fn with_capacity(_n: usize) -> Self { Self::default() }
+        pub fn len(&self) -> usize { self.0.len() }
+        pub fn is_empty(&self) -> bool { self.0.is_empty() }
+        pub fn contains(&self, k: &K) -> bool {
+            let mut i = 0;
+            while i < self.0.len() { if self.0[i] == *k { return true; } i += 1; }
+            false
+        }
+        pub fn insert(&mut self, k: K) -> bool {
+            if self.contains(&k) { false } else { self.0.push(k); true }
+        }
+        pub fn remove(&mut self, k: &K) -> bool {
+            let mut i = 0;
+            while i < self.0.len() { if self.0[i] == *k { self.0.remove(i); return true; } i += 1; }
+            false
+        }
+        pub fn iter(&self) -> std::slice::Iter<'_, K> { self.0.iter() }
+        pub fn difference<'a>(&'a self, other: &'a HashSet<K, S>) -> impl Iterator<Item = &'a K> + 'a {
+            self.0.iter().filter(move |k| !other.contains(k))
+        }
+        pub fn union<'a>(&'a self, other: &'a HashSet<K, S>) -> impl Iterator<Item = &'a K> + 'a {
+            self.0.iter().chain(other.0.iter().filter(move |k| !self.contains(k)))
+        }
+    }
+    impl<K: PartialEq, S> FromIterator<K> for HashSet<K, S> {
+        fn from_iter<I: IntoIterator<Item = K>>(it: I) -> Self {
+            let mut m = Self::default();
+            for k in it { m.insert(k); }
+            m
+        }
+    }
+    impl<K, S> IntoIterator for HashSet<K, S> {
+        type Item = K;
+        type IntoIter = std::vec::IntoIter<K>;
+        fn into_iter(self) -> Self::IntoIter { self.0.into_iter() }
+    }
+    impl<'a, K, S> IntoIterator for &'a HashSet<K, S> {
+        type Item = &'a K;
+        type IntoIter = std::slice::Iter<'a, K>;
+        fn into_iter(self) -> Self::IntoIter { self.0.iter() }
+    }
     impl<K: serde::Serialize, V: serde::Serialize, S> serde::Serialize for HashMap<K, V, S> {
         fn serialize<Se: serde::Serializer>(&self, s: Se) -> Result<Se::Ok, Se::Error> {
             s.collect_map(self.0.iter().map(|(k, v)| (k, v)))
@@ -296,4 +343,16 @@ impl Draw {
         }
         a
     }
+}
+
+/// Indirection for `filter.matches(request, regex_manager)` at the call sites of the bucket scan (textual
+/// substitution in the scratch copy, semantically the identity). It gives the container kernels a free
+/// function to stub: Kani does not apply stubs to trait-impl methods.
+pub fn rule_matches(
+    f: &crate::filters::network::NetworkFilter,
+    request: &crate::request::Request,
+    regex_manager: &mut crate::regex_manager::RegexManager,
+) -> bool {
+    use crate::filters::network::NetworkMatchable;
+    f.matches(request, regex_manager)
 }
